@@ -24,9 +24,9 @@ class C05(CheckBase):
             "comment/reference to 40..10^5 characters, parenthesis insert/delete, nesting to 5000, complex record with up to 300 parts, illegal "
             "entity combinations} placed modulo the file's bytes/tokens, read under a seeded delivery schedule, then the resulting population is "
             "written. quick additionally enumerates EVERY truncation offset of one small file, thorough of every file <= 2 KiB it generates (reported "
-            "under truncation_sweep). One plan in 1250 is a SCALING pair ('time proportional to the input'): the records of a small population, fault-free or "
-            "with one fault in every copy, are replicated K and 16K times with shifted ids (about 2000 and 32000 instances) and the CPU cost of "
-            "read+write is compared (minimum of two runs each; judged only when the small run costs >= 20 ms): a ratio above 48 (3x the size ratio; "
+            "under truncation_sweep). One plan in 625 is a SCALING pair ('time proportional to the input'): the records of a small population, fault-free or "
+            "with one fault in every copy, are replicated K and 16K times with shifted ids (about 2000 and 32000 instances; in a third of the pairs it is one innermost parenthesised group inside a record that is repeated 8000 / 128000 times, with or without its comma, in a tenth a header entity) and the CPU cost of "
+            "read+write is compared (minimum of two runs each; judged only when the small run costs >= 5 ms; the constant process start-up cost biases the ratio downwards): a ratio above 48 (3x the size ratio; "
             "measured 7..19 on the unchanged tree, 55..140 with an instance manager that scans on append) is C05/superlinear. non-trivial = the fault changed the bytes and the reader got past the file's first token; "
             "distinct = hash(schema, fault kinds + token class hit, delivery class, how the run ended)")
     components_real = ["STEPfile reader/writer incl. working-session paths", "generated schema library", "STEPcomplex matcher", "libstdc++ basic_filebuf"]
@@ -58,7 +58,7 @@ class C05(CheckBase):
     def time_budget(self, tier):
         return 170 if tier == "quick" else 1700
 
-    SCALE_EVERY = 1250
+    SCALE_EVERY = 625
     SCALE_FAULTS = ["tok-del", "tok-dup", "tok-swap", "flip", "paren", "garble", "illegal-complex", "complex-parts"]
     SCALE_LIMIT = 3.0       # cost(16K copies) / cost(K copies) may be at most factor * SCALE_LIMIT (a purely quadratic path gives factor * 16)
     SWEEP = {"quick": 1, "thorough": 40}   # number of base files whose truncation offsets are enumerated completely
@@ -105,6 +105,13 @@ class C05(CheckBase):
             plan["faults"] = [] if r.random() < 0.4 else [faults.gen_fault(r, kinds=self.SCALE_FAULTS, schema_names=names)]
             plan["delivery"] = W2
             plan["scale"] = {"small_insts": r.choice([1500, 2500]), "factor": 16}
+            m = r.random()
+            if m < 0.35:
+                # growth INSIDE one record: an innermost parenthesised group (aggregate value, parameter list) repeated, with or without the comma
+                plan["scale"].update(mode="inner", pick=r.randint(0, 10 ** 6), sep=r.choice([",", ",", "", " "]), deep=r.random() < 0.5)
+            elif m < 0.45:
+                # growth of the header: one header entity (or an unknown one) repeated
+                plan["scale"].update(mode="header", pick=r.randint(0, 10 ** 6), unknown=r.random() < 0.5)
             return self.finish(plan)
         plan = self.base_plan(seed, r.randrange(nbase), tier)
         names = [e["name"] for e in plan["schema_def"]["entities"]]
@@ -158,12 +165,43 @@ class C05(CheckBase):
         if a < 0 or b < a + 5:
             return None
         head, body, tail = unit[:a + 5], unit[a + 5:b], unit[b:]
+        sc = plan["scale"]
+        if sc.get("mode") in ("inner", "header"):
+            if sc["mode"] == "inner":
+                groups = [m_ for m_ in re.finditer(r"\([^()']*\)", body)]
+                if not groups:
+                    return None
+                if sc.get("deep"):
+                    # prefer a group that sits inside another aggregate (an element of an aggregate of aggregates)
+                    deep = [m_ for m_ in groups if body.count("(", body.rfind(";", 0, m_.start()) + 1, m_.start()) - body.count(")", body.rfind(";", 0, m_.start()) + 1, m_.start()) >= 2]
+                    groups = deep or groups
+                g = groups[sc["pick"] % len(groups)]
+                pre, grp, post = head + body[:g.start()], g.group(0), body[g.end():] + tail
+                sep = sc.get("sep", ",")
+            else:
+                hs = unit.find("HEADER;")
+                he = unit.find("ENDSEC;")
+                if hs < 0 or he < hs:
+                    return None
+                ents = [m_ for m_ in re.finditer(r"[A-Z_]+\((?:[^;']|'[^']*')*\);", unit[hs + 7:he])]
+                if not ents:
+                    return None
+                g = ents[sc["pick"] % len(ents)]
+                grp = "X();" if sc.get("unknown") else g.group(0)
+                pre, post = unit[:hs + 7 + g.start()], unit[hs + 7 + g.start():]
+                sep = "\n"
+            k = max(200, sc["small_insts"] * 4)
+            while k > 200 and (len(grp) + len(sep)) * k * sc["factor"] > 12 * 2 ** 20:
+                k //= 2
+
+            def rep(n):
+                return pre + sep.join([grp] * n) + post
+            return rep(k), rep(k * sc["factor"]), k, where + ["scale-" + sc["mode"]], fired
         ids = [int(x) for x in re.findall(r"#(\d{1,7})(?!\d)", body)]
         n_inst = max(1, len(plan["model"]["insts"]))
         if not ids or not body.strip():
             return None
         stride = max(ids) + 1
-        sc = plan["scale"]
         k = max(1, sc["small_insts"] // n_inst)
         while k > 1 and len(body) * k * sc["factor"] > 12 * 2 ** 20:
             k //= 2
@@ -258,7 +296,7 @@ class C05(CheckBase):
                     if k in o and not (-5 <= o[k] <= 3):
                         out.append({"class": "C05/severity-out-of-range", "detail": "step %s %s=%s" % (o.get("op"), k, o[k])})
         sc = obs.get("scale")
-        if sc and not ec and sc["cost_us"][0] and sc["cost_us"][1] and sc["cost_us"][0] >= 20000:
+        if sc and not ec and sc["cost_us"][0] and sc["cost_us"][1] and sc["cost_us"][0] >= 5000:
             ratio = sc["cost_us"][1] / float(sc["cost_us"][0])
             lim = plan["scale"]["factor"] * self.SCALE_LIMIT
             if ratio > lim:
